@@ -244,6 +244,9 @@ def classify_exc(exc):
             todo.extend(list(u() if callable(u) else (u or [])))
         except Exception:  # noqa
             pass
+    # scratch directories and instance names (time stamps) are not part of the answer
+    msg = re.sub(r'\S*c03-hist-[A-Za-z0-9_]+', '$T', msg)
+    msg = re.sub(r'\d{8}T\d{6}\.\d+', 'TIMESTAMP', msg)
     if 'not consistent' in msg:
         return 'inconsistent'
     if 'exists multiple times' in msg:
@@ -1314,10 +1317,13 @@ def shrink(what, case):
     """greedy: drop components, references, variables, path/variable decorations while the same oracle failure persists;
     the command line is first reduced to the plain list of the declared references and then kept in step with them; the
     processing orders tried are all permutations (<= 4 components) or the rotations of the topological order"""
+    import time
+    deadline = time.time() + 20
+
     def fails(c):
         stages = sorted({x['stage'] for x in c['comps']})
-        if stages != list(range(len(stages))):
-            return False
+        if stages != list(range(len(stages))) or time.time() > deadline:
+            return False            # (out of time: keep what has been reached so far)
         try:
             return any(w == what for w, _ in oracle(c, impl_run(c)))
         except Exception:  # noqa
@@ -1331,13 +1337,33 @@ def shrink(what, case):
             if keep_rep:
                 x['args'] = (x['args'] + ' rep=%(replica)s').strip()
         c['order'] = list(range(len(c['comps'])))
-        c['orders'] = shrink_orders(len(c['comps']))
+        c['orders'] = shrink_orders(len(c['comps'])) if not c.get('history') else [c['order']]
         return c
 
     case = normalise(case)
     cur = plain(case)
     if not fails(cur):
         return case
+    # a history: as few steps as possible, no instantiation
+    if cur.get('history'):
+        h = cur['history']
+        if h.get('instantiate'):
+            cand = copy.deepcopy(cur)
+            cand['history'].pop('instantiate')
+            if fails(cand):
+                cur = cand
+        k = 1
+        while k < len(cur['history']['steps']) - 1:
+            cand = copy.deepcopy(cur)
+            cand['history']['steps'].pop(k)
+            if fails(cand):
+                cur = cand
+            else:
+                k += 1
+        cand = copy.deepcopy(cur)
+        cand.pop('history')
+        if fails(cand):
+            cur = cand
     changed = True
     while changed:
         changed = False
@@ -1388,26 +1414,6 @@ def shrink(what, case):
                 cand['comps'][ci]['agg'] = True if is_agg(cur, cur['comps'][ci]) else None
                 if fails(cand):
                     cur, changed = cand, True
-    # a history: as few steps as possible, no instantiation
-    if cur.get('history'):
-        h = cur['history']
-        if h.get('instantiate'):
-            cand = copy.deepcopy(cur)
-            cand['history'].pop('instantiate')
-            if fails(cand):
-                cur = cand
-        k = 1
-        while k < len(cur['history']['steps']) - 1:
-            cand = copy.deepcopy(cur)
-            cand['history']['steps'].pop(k)
-            if fails(cand):
-                cur = cand
-            else:
-                k += 1
-        cand = copy.deepcopy(cur)
-        cand.pop('history')
-        if fails(cand):
-            cur = cand
     # keep only one failing processing order next to the topological one when a single order is enough
     for o in cur['orders']:
         cand = dict(copy.deepcopy(cur), orders=[o])
@@ -1544,7 +1550,7 @@ def run(ctx):
                 "experimentFromPackage and read back with graphFromExperimentInstanceDirectory) with user variable "
                 "files (0-2 per step, global and stage sections) that change the variables the counts / flags are "
                 "given through (counts 1-6, 11, 12); every step is compared with the expansion of the document "
-                "under the user variables of that step. A sample of 60 (quick) / 400 (thorough) cases + the corpus is "
+                "under the user variables of that step. A sample of 60 (quick) / 300 (thorough) cases + the corpus is "
                 "run again at the end in another order, and a third of them once more with all loggers enabled at "
                 "DEBUG level: identical answers required. "
                 "non-trivial = the expected expansion has at least one copy and at least one component whose "
@@ -1572,8 +1578,8 @@ def run(ctx):
     rng = ctx.rng
     quick = ctx.tier == 'quick'
     cases = [dict(c, order=list(range(len(c['comps']))), orders=shrink_orders(len(c['comps']))) for c in CORPUS]
-    n = 700 if quick else 9000
-    nh = 150 if quick else 1500
+    n = 700 if quick else 8000
+    nh = 150 if quick else 1200
     for i in range(n):
         cases.append(gen_case(rng))
         if i * nh // n != (i + 1) * nh // n:       # the histories are spread over the run
@@ -1582,7 +1588,7 @@ def run(ctx):
                 cases.append(hc)
     # E: a sample of the cases is run again at the end (another order, after all the others), once with the same
     # ambient settings and once with logging enabled
-    chosen = set(rng.sample(range(len(cases)), min(len(cases), 60 if quick else 400)))
+    chosen = set(rng.sample(range(len(cases)), min(len(cases), 60 if quick else 300)))
     chosen |= {i for i, c in enumerate(cases) if str(c.get('kind', '')).startswith('corpus:')}
     first = {}
     counter = [0]
